@@ -99,8 +99,8 @@ func InitGlobalEnvironment() {
 	initChar()
 	initSymbol()
 	initRegex()
-	initIterator()
 	initIterable()
+	initIterator()
 	initImmutableCollection()
 	initCollection()
 	initTuple()
